@@ -85,3 +85,39 @@ def is_none_test(test, names: Set[str]) -> Optional[bool]:
   if isinstance(t, ast.Name) and t.id in names:
     return neg  # `if x:` -> not None on the true branch
   return None
+
+
+def branch_when(test, atom_pred, atom_value: bool = True) -> Optional[str]:
+  """Which branch of `if test` is taken when every sub-expression satisfying
+
+  `atom_pred` is `atom_value` (everything else unknown): 'true', 'false' or
+  None if the atoms do not decide the test.  Makes rules indifferent to
+  `if a: X else: Y` versus `if not a: Y else: X`.
+  """
+  def ev(t):
+    if atom_pred(t):
+      return atom_value
+    if isinstance(t, ast.UnaryOp) and isinstance(t.op, ast.Not):
+      v = ev(t.operand)
+      return None if v is None else not v
+    if isinstance(t, ast.Compare) and len(t.ops) == 1 and isinstance(
+        t.ops[0], (ast.NotIn, ast.IsNot, ast.NotEq)):
+      # `a not in b` is `not (a in b)` for an atom predicate written
+      # positively
+      pos = {ast.NotIn: ast.In, ast.IsNot: ast.Is, ast.NotEq: ast.Eq}[
+          type(t.ops[0])]
+      twin = ast.Compare(left=t.left, ops=[pos()], comparators=t.comparators)
+      if atom_pred(twin):
+        return not atom_value
+    if isinstance(t, ast.BoolOp):
+      vals = [ev(v) for v in t.values]
+      if isinstance(t.op, ast.And):
+        if any(v is False for v in vals):
+          return False
+        return True if all(v is True for v in vals) else None
+      if any(v is True for v in vals):
+        return True
+      return False if all(v is False for v in vals) else None
+    return None
+  v = ev(test)
+  return None if v is None else ('true' if v else 'false')
